@@ -36,7 +36,7 @@ TABLE = {
     "C16": {"props": "C16.v", "engines": ["e2", "e3"]},
     "C17": {"props": "C17.v", "engines": ["e6"]},
     "C18": {"props": "C18.v", "engines": ["e1", "e6"], "oracle": ["C18"], "components": ["step"]},
-    "C19": {"props": "C19.v", "engines": ["e1", "e2"], "oracle": ["C19"], "components": ["step"], "level": "other"},
+    "C19": {"props": "C19.v", "engines": ["e1", "e2", "e6"], "oracle": ["C19"], "components": ["step"], "level": "other"},
     "C20": {"props": "C20.v", "engines": ["e1"], "oracle": ["C20"], "components": ["convert"]},
 }
 
